@@ -6,6 +6,8 @@ from vlib.common import PROVED, REFUTED, UNKNOWN
 def p_deflevels(ctx):
     res = c11_deflevels.check(ctx, 10000 if ctx.tier == "quick" else 60000)
     for name in res.order:
+        if ctx.prop == "C12" and "capacity" not in name and "store_in_region" not in name and "in_region" not in name:
+            continue            # C12 reports the memory side only: the scratch buffer holds everything written into it
         st = res.status(name)
         e = next((x for x in res.d[name] if x[0] == st), res.d[name][0])
         ctx.obligation(name, "writer.make_definitions + cencoding.encode_unsigned_varint", st, e[3], sum(x[2] for x in res.d[name]),
